@@ -17,7 +17,7 @@ namespace Piqp
 variable {K : Type}
 
 section
-variable [Add K] [Sub K] [Mul K] [Div K] [Zero K] [One K] [DecidableEq K]
+variable [Add K] [Sub K] [Mul K] [Div K] [Zero K] [One K] [BEq K]
 
 /-- first column below the diagonal divided by the pivot -/
 @[inline] def colDiv {n : Nat} (A : Mat K (n+1) (n+1)) (d : K) : Vec K n :=
@@ -45,7 +45,7 @@ def ldlt : (n : Nat) → Mat K n n → Except Nat (Mat K n n × Vec K n)
   | 0, _ => .ok (Vector.ofFn fun i => i.elim0, Vector.ofFn fun i => i.elim0)
   | n+1, A =>
     let d0 := A[(0 : Fin (n+1))][(0 : Fin (n+1))]
-    if d0 = 0 then .error 0 else
+    if d0 == 0 then .error 0 else
     let l := colDiv A d0
     match ldlt n (schur A l d0) with
     | .error k => .error (k+1)
@@ -56,7 +56,7 @@ def ldltSolve : (n : Nat) → Mat K n n → Vec K n → Except Nat (Vec K n)
   | 0, _, _ => .ok (Vector.ofFn fun i => i.elim0)
   | n+1, A, b =>
     let d0 := A[(0 : Fin (n+1))][(0 : Fin (n+1))]
-    if d0 = 0 then .error 0 else
+    if d0 == 0 then .error 0 else
     let l := colDiv A d0
     let b0 := b[(0 : Fin (n+1))]
     let b' : Vec K n := Vector.ofFn fun i => b[i.succ] - l[i] * b0
